@@ -88,7 +88,7 @@ def site_side(m, c):
 
 def run(ctx):
     m = Model(ctx)
-    ups = [f for f in ctx.prog.fns.values() if f.name == "update" and f.crate.name == "bourse_de" and (f.impl_adt or "").split("::")[-1] in ("MomentumAgent", "MomentumMarketAgent")]
+    ups = [f for f in ctx.prog.units() if f.name == "update" and f.crate.name == "bourse_de" and (f.impl_adt or "").split("::")[-1] in ("MomentumAgent", "MomentumMarketAgent")]
     ctx.check(len(ups) == 2, "anchor", "updates", "-", "both momentum update implementations found", "found %d momentum update impls" % len(ups))
     abstractions = {}
     for f in ups:
@@ -250,7 +250,7 @@ def run(ctx):
         loops = q.body.loop_heads()
         ctx.check(len(loops) == 1 and all(q.cfg.in_loop(c.b) for c in sites), "sites", tag + "|per-trader", ctx.loc(f), "placements sit in the single per-trader loop")
         abstractions[tag] = [(c.name.replace("_market", ""), site_side(m, c)) for c in q.ordered(sites)]
-    for f in ctx.prog.fns.values():
+    for f in ctx.prog.units():
         if f.name == "new" and f.crate.name == "bourse_de" and (f.impl_adt or "").split("::")[-1] in ("MomentumAgent", "MomentumMarketAgent"):
             r = m.q(f).ret()
             fv = dict(zip(r[4], r[3])) if r[0] == "agg" else {}
